@@ -1,6 +1,6 @@
 (** Pins for C10: the statements written out, so that no theorem is weakened quietly. *)
 From TucModel Require Import Base.Bytes Model.Bounds Model.Scan Model.Opt Model.CutBytes Model.CutStr
-     Model.FastLane Proofs.C10 Properties.C10.
+     Model.FastLane Model.Stream Proofs.C04 Proofs.C10 Proofs.C10Stream Properties.C10.
 
 
 Check C10_general_path :
@@ -26,3 +26,31 @@ Check C10_failure_is_preserved_fast :
     read_and_cut_fast o (A ++ [o_eol o]) = Some (Fail pre) ->
     read_and_cut_fast o ((A ++ [o_eol o]) ++ B) = Some (Fail pre).
 Print Assumptions C10_failure_is_preserved_fast.
+
+Check C10_fixed_memory_is_per_record :
+  forall (so : sopt) (input : bytes),
+    no_adjacent_fillers (s_items so) ->
+    Some (run_stream_whole so input) = run_records (stream_cut so) (records (s_eol so) input) [].
+Print Assumptions C10_fixed_memory_is_per_record.
+
+Check C10_fixed_memory :
+  forall (so : sopt) (A B : bytes),
+    no_adjacent_fillers (s_items so) ->
+    Some (run_stream_whole so ((A ++ [s_eol so]) ++ B))
+    = seq_outcome (Some (run_stream_whole so (A ++ [s_eol so]))) (Some (run_stream_whole so B)).
+Print Assumptions C10_fixed_memory.
+
+Check C10_fixed_memory_any_chunking :
+  forall (so : sopt) (A B : bytes) (cs csA csB : list bytes),
+    no_adjacent_fillers (s_items so) ->
+    chunks_ok cs -> chunks_ok csA -> chunks_ok csB ->
+    concat cs = (A ++ [s_eol so]) ++ B -> concat csA = A ++ [s_eol so] -> concat csB = B ->
+    Some (run_stream so cs) = seq_outcome (Some (run_stream so csA)) (Some (run_stream so csB)).
+Print Assumptions C10_fixed_memory_any_chunking.
+
+Check C10_failure_is_preserved_fixed_memory :
+  forall (so : sopt) (A B pre : bytes),
+    no_adjacent_fillers (s_items so) ->
+    run_stream_whole so (A ++ [s_eol so]) = Fail pre ->
+    run_stream_whole so ((A ++ [s_eol so]) ++ B) = Fail pre.
+Print Assumptions C10_failure_is_preserved_fixed_memory.
